@@ -401,7 +401,7 @@ def work(block):
 def space(ctx):
     """-> depth, derivations, {family: sorted strings}.  Families:
     derivation / near_miss -- the extended grammar G (see _typegrammar.Grammar(ext=True)) and its
-    one-token edits; named / arity / lengths -- the side families of _c07x."""
+    one-token edits; named / arity / lengths / tdparam -- the side families of _c07x."""
     depth = 3 if ctx.quick else 4
     if "depth" in getattr(ctx, "opts", {}):
         depth = int(ctx.opts["depth"])
